@@ -6,6 +6,7 @@ CONSTANTS
   QueueMax = 2
   MaxTasks = 3
   MaxOps = 0
+  RetryExact = TRUE
   SyncTask = FALSE
   Dev = {}
 SPECIFICATION LiveSpec
